@@ -348,6 +348,12 @@ class Ops:
             return self.matmul(ta, tb, node)
         # list / tuple concatenation and repetition
         if isinstance(a, ListV) and isinstance(b, ListV) and isinstance(op, ast.Add):
+            if {a.kind, b.kind} == {"list", "tuple"} and getattr(self, "strict_sequence_kinds", False):
+                # list + tuple: TypeError (only in the runs that pass arguments in their other admissible sequence type)
+                from .interp import AbsRaise
+
+                self.ev("raise_site", node, exc="TypeError", what=f"{a.kind} + {b.kind}")
+                raise AbsRaise("TypeError", node, self.interp.where(node)[1])
             return self.concat_lists(a, b, node)
         if isinstance(op, ast.Mult) and (isinstance(a, ListV) or isinstance(b, ListV)):
             lst, n = (a, b) if isinstance(a, ListV) else (b, a)
@@ -713,6 +719,8 @@ class Ops:
             order = b.order
         elif b.items is not None and len(b.items) == 0:
             order = a.order
+        if order is None and a.order is not None and b.order is not None and a.order[0] == b.order[0] and "filtered" in a.order[1] and "filtered" in b.order[1]:
+            order = (a.order[0], "regrouped")  # two selections of one collection laid end to end: its elements grouped by the selecting conditions
         e = ea if eb is None else (eb if ea is None else join(ea, eb))
         return ListV(items=None, elem=e, kind=a.kind, order=order, over=None)
 
